@@ -3,7 +3,7 @@
  "name": "find_position",
  "props": ["C15"],
  "level": "U",
- "tier": "wip",
+ "tier": "quick",
  "harness": "h_find_position",
  "enforce": ["xattr_find_position"],
  "loop_contracts": true,
@@ -23,7 +23,7 @@
  "name": "find_position_small",
  "props": ["C15"],
  "level": "B(3)",
- "tier": "wip",
+ "tier": "quick",
  "harness": "h_find_position_small",
  "unwind": 5,
  "unwind_reason": "bounded cross-check: count <= 3, names <= 2 bytes (+NUL) in real buffers, libc strlen/memcmp are CBMC's built-in models; all loops unwound, unwinding assertions on",
